@@ -1345,3 +1345,38 @@ pub fn from_msgpack_stream(b: &[u8]) -> Result<Vec<V>, String> {
     }
     Ok(docs)
 }
+
+// ------------------------------------------------------------------------------------------
+// Text re-encoding (UTF-8 text -> UTF-16/32, either endianness, optional BOM)
+
+pub const ENCODINGS: [&str; 4] = ["utf16le", "utf16be", "utf32le", "utf32be"];
+
+pub fn reencode(utf8: &str, enc: &str, bom: bool) -> Vec<u8> {
+    let mut out = vec![];
+    let mut chars: Vec<char> = vec![];
+    if bom {
+        chars.push('\u{feff}');
+    }
+    chars.extend(utf8.chars());
+    for c in chars {
+        match enc {
+            "utf16le" | "utf16be" => {
+                let mut b = [0u16; 2];
+                for u in c.encode_utf16(&mut b) {
+                    if enc == "utf16le" {
+                        out.extend_from_slice(&u.to_le_bytes());
+                    } else {
+                        out.extend_from_slice(&u.to_be_bytes());
+                    }
+                }
+            }
+            "utf32le" => out.extend_from_slice(&(c as u32).to_le_bytes()),
+            "utf32be" => out.extend_from_slice(&(c as u32).to_be_bytes()),
+            _ => {
+                let mut b = [0u8; 4];
+                out.extend_from_slice(c.encode_utf8(&mut b).as_bytes());
+            }
+        }
+    }
+    out
+}
